@@ -80,7 +80,15 @@ func (c02) Gen(seed uint64, run int, tier string) *Plan {
 				p.Actions = append(p.Actions, task(d))
 			}
 			p.Actions = append(p.Actions, Action{Kind: "rekey", B: d, D: r.Intn(1 << 30)})
+			if !conc && r.Intn(2) == 0 {
+				// the teamserver is restarted: the restored session has to carry the key the agent
+				// holds now, or the next task body is noise to it
+				p.Actions = append(p.Actions, Action{Kind: "restart"})
+			}
 			continue
+		}
+		if !conc && r.Intn(12) == 0 {
+			p.Actions = append(p.Actions, Action{Kind: "restart"})
 		}
 		if conc && r.Intn(2) == 0 {
 			// two operators task one agent while it checks in
@@ -271,6 +279,44 @@ func (c02) Exec(p *Plan, dir string) *Result {
 			ts := w.Absorb(d, c)
 			st.verify(di, c, ts)
 			res.Probe("rekey-in-the-request-that-fetches-jobs")
+		case "restart":
+			// (queues are not persisted: the agents fetch what is waiting first)
+			for di, d := range w.Demons {
+				for k := 0; k < 50; k++ {
+					c, ts := w.Checkin(d)
+					st.verify(di, c, ts)
+					if len(ts) == 0 {
+						break
+					}
+				}
+			}
+			nOps := len(w.Operators)
+			w.Crash()
+			if err := w.Boot(); err != nil {
+				res.HarnessError = "restart: " + err.Error()
+				res.finish(w)
+				return res
+			}
+			for k := 0; k < nOps; k++ {
+				o := w.NewOperator(p.Cfg.Operators[k].Name, p.Cfg.Operators[k].Password)
+				if !o.Login() {
+					res.HarnessError = "restart: operator could not log in"
+					res.finish(w)
+					return res
+				}
+			}
+			w.Sim.SetPolicy(p.Policy)
+			// which tasks are outstanding does not outlive the process: an answer to a task handed
+			// out before the restart (a re-key, say) would be dropped
+			for di := range st.byRID {
+				for id, t := range st.byRID[di] {
+					if t.got > 0 {
+						delete(st.byRID[di], id)
+					}
+				}
+			}
+			res.Probe("restarts")
+			res.FP("restart")
 		case "par":
 			n := a.A
 			if i+n >= len(p.Actions) {
